@@ -11,6 +11,22 @@
 //! the CLONE (`ret`), and both `a` (must be unchanged) and `c` are observed; for `b` the call
 //! is applied to the ORIGINAL and both `b` and its earlier clone (must be unchanged) are
 //! observed.
+//!
+//!   eq_clonefrom <repr> [<startDst> <opsDst> (<via>)] [<startSrc> <opsSrc> (<via>)] <mut>
+//!     =>  [eq cmp hasheq] OBSDST OBSSRC [ret OBSSRC' OBSDST']
+//!
+//! `dst.clone_from(&src)` (not `clone`), then `dst == src`, `cmp`, hash equality, both
+//! observations; then `<mut>` is applied to `dst` and both are observed again.
+//!
+//! `<via>` (third element of a history) says how the START digraph is produced before the calls:
+//!   * `al|am|mx|el`: built in that representation, converted with `From`;
+//!   * a generator `complete circuit cycle path star wheel biclique empty tournament erdos rrt`:
+//!     `X::<gen>(order)`;
+//!   * an operation `complement converse union filter`: the operation applied to digraphs built so
+//!     that its result should be the described digraph (complement of the complement arc set, …);
+//! and then FIXED UP by `add_arc` / `remove_arc` calls (computed from the observed arcs) so that the
+//! start digraph denotes exactly `<start>`.  Whatever produced it, it must be `==` to the same
+//! digraph built by plain calls.
 #![allow(unused_imports, dead_code, clippy::all)]
 
 use super::c01::{self, parse_ops, show_arcs, show_ops, HOp, Subject};
@@ -19,6 +35,11 @@ use crate::rng::Rng;
 use crate::value::V;
 use crate::with_subject;
 use std::collections::hash_map::DefaultHasher;
+use graaf::{
+    Biclique, Circuit, Complement, Complete, Converse, Cycle, Empty, ErdosRenyi, FilterVertices, Path,
+    RandomRecursiveTree, RandomTournament, Star, Union, Wheel,
+};
+use std::collections::BTreeSet;
 use std::hash::{Hash, Hasher};
 
 fn obs<D: Subject>(d: &D) -> V {
@@ -75,51 +96,185 @@ fn parse_hist(v: &V) -> Option<(Desc, Vec<HOp>, Option<String>)> {
     }
 }
 
-macro_rules! build_via {
+pub const GENERATORS: [&str; 11] =
+    ["complete", "circuit", "cycle", "path", "star", "wheel", "biclique", "empty", "tournament", "erdos", "rrt"];
+pub const OPERATIONS: [&str; 3] = ["complement", "converse", "union"];
+
+fn seed_of(n: usize) -> u64 {
+    (n as u64).wrapping_mul(7919).wrapping_add(1)
+}
+
+/// The description with the complementary arc set (same vertices).
+fn complement_desc(d: &Desc) -> Desc {
+    let have: BTreeSet<(usize, usize)> = d.arcs.iter().copied().collect();
+    let mut arcs = vec![];
+    for &u in &d.verts {
+        for &v in &d.verts {
+            if u != v && !have.contains(&(u, v)) {
+                arcs.push((u, v));
+            }
+        }
+    }
+    let k = arcs.len();
+    Desc { repr: d.repr.clone(), verts: d.verts.clone(), arcs, weights: vec![1; k] }
+}
+
+fn converse_desc(d: &Desc) -> Desc {
+    let arcs: Vec<(usize, usize)> = d.arcs.iter().map(|&(u, v)| (v, u)).collect();
+    Desc { repr: d.repr.clone(), verts: d.verts.clone(), arcs, weights: d.weights.clone() }
+}
+
+/// Two descriptions whose union is `d`: the arcs alternate; the second keeps only the vertices
+/// up to its largest endpoint (contiguous ids) resp. its endpoints (map), so the orders differ.
+fn split_desc(d: &Desc) -> (Desc, Desc) {
+    let mut a = Desc { repr: d.repr.clone(), verts: d.verts.clone(), arcs: vec![], weights: vec![] };
+    let mut b = Desc { repr: d.repr.clone(), verts: vec![], arcs: vec![], weights: vec![] };
+    for (i, &arc) in d.arcs.iter().enumerate() {
+        if i % 2 == 0 {
+            a.arcs.push(arc);
+            a.weights.push(1);
+        } else {
+            b.arcs.push(arc);
+            b.weights.push(1);
+        }
+    }
+    if d.repr == "am" {
+        let mut vs: BTreeSet<usize> = BTreeSet::new();
+        for &(u, v) in &b.arcs {
+            let _ = vs.insert(u);
+            let _ = vs.insert(v);
+        }
+        if vs.is_empty() {
+            let _ = vs.insert(d.verts[0]);
+        }
+        b.verts = vs.into_iter().collect();
+    } else {
+        let top = b.arcs.iter().map(|&(u, v)| u.max(v)).max().unwrap_or(0);
+        b.verts = (0..=top).collect();
+    }
+    (a, b)
+}
+
+/// After the start digraph was produced in some roundabout way: make it denote `desc` with
+/// plain calls computed from what it shows (nothing to do when it already does).
+fn fix_up<D: Subject>(g: &mut D, desc: &Desc) {
+    let want: BTreeSet<(usize, usize)> = desc.arcs.iter().copied().collect();
+    let have: BTreeSet<(usize, usize)> = g.plain_arcs_().into_iter().collect();
+    for &(u, v) in have.difference(&want) {
+        let _ = g.apply(&HOp::Rem(u, v));
+    }
+    for &(u, v) in want.difference(&have) {
+        let _ = g.apply(&HOp::Add(u, v));
+    }
+}
+
+macro_rules! start_of {
     ($desc:expr, $via:expr, $target:ty, $direct:ident) => {{
         let d: &Desc = $desc;
-        match $via.as_deref() {
+        let n = d.order();
+        let g: Option<$target> = match $via.as_deref() {
             None => Some(d.$direct()),
             Some(v) if v == d.repr => Some(d.$direct()),
             Some("al") => Some(<$target>::from(d.build_al())),
             Some("am") => Some(<$target>::from(d.build_am())),
             Some("mx") => Some(<$target>::from(d.build_mx())),
             Some("el") => Some(<$target>::from(d.build_el())),
+            Some("complete") => Some(<$target>::complete(n)),
+            Some("circuit") => Some(<$target>::circuit(n)),
+            Some("cycle") => Some(<$target>::cycle(n)),
+            Some("path") => Some(<$target>::path(n)),
+            Some("star") => Some(<$target>::star(n)),
+            Some("wheel") => Some(<$target>::wheel(n)),
+            Some("biclique") => Some(<$target>::biclique((n + 1) / 2, n / 2)),
+            Some("empty") => Some(<$target>::empty(n)),
+            Some("tournament") => Some(<$target>::random_tournament(n, seed_of(n))),
+            Some("erdos") => Some(<$target>::erdos_renyi(n, 0.5, seed_of(n))),
+            Some("rrt") => Some(<$target>::random_recursive_tree(n, seed_of(n))),
+            Some("complement") => Some(complement_desc(d).$direct().complement()),
+            Some("converse") => Some(converse_desc(d).$direct().converse()),
+            Some("union") => {
+                let (a, b) = split_desc(d);
+                // both operand orders: the implementation clones the larger one
+                if d.arcs.len() % 2 == 0 { Some(a.$direct().union(&b.$direct())) } else { Some(b.$direct().union(&a.$direct())) }
+            }
             _ => None,
-        }
+        };
+        g.map(|mut g| {
+            if $via.is_some() {
+                fix_up(&mut g, d);
+            }
+            g
+        })
     }};
 }
 
-pub fn eval(op: &str, args: &[V]) -> Option<Vec<V>> {
-    match op {
-        "eq_pair" => {
-            let [repr, ha, hb, m] = args else { return None };
-            let repr = repr.as_atom()?;
-            let (da, oa, va) = parse_hist(ha)?;
-            let (db, ob, vb) = parse_hist(hb)?;
-            let m = HOp::parse(m)?;
-            if da.repr != repr || db.repr != repr {
-                return None;
-            }
-            // `From<Self>` is the identity conversion: same-type `via` is handled in the macro
-            match repr {
-                "al" => compare(
-                    build_via!(&da, va, graaf::AdjacencyList, build_al)?,
-                    build_via!(&db, vb, graaf::AdjacencyList, build_al)?, &oa, &ob, &m),
-                "am" => compare(
-                    build_via!(&da, va, graaf::AdjacencyMap, build_am)?,
-                    build_via!(&db, vb, graaf::AdjacencyMap, build_am)?, &oa, &ob, &m),
-                "mx" => compare(
-                    build_via!(&da, va, graaf::AdjacencyMatrix, build_mx)?,
-                    build_via!(&db, vb, graaf::AdjacencyMatrix, build_mx)?, &oa, &ob, &m),
-                "el" => compare(
-                    build_via!(&da, va, graaf::EdgeList, build_el)?,
-                    build_via!(&db, vb, graaf::EdgeList, build_el)?, &oa, &ob, &m),
-                "wu" if va.is_none() && vb.is_none() => compare(da.build_wu(), db.build_wu(), &oa, &ob, &m),
-                "wi" if va.is_none() && vb.is_none() => compare(da.build_wi(), db.build_wi(), &oa, &ob, &m),
-                _ => None,
+/// `filter_vertices` exists on the map only: extra vertices and arcs that the filter drops again.
+fn start_am(d: &Desc, via: &Option<String>) -> Option<graaf::AdjacencyMap> {
+    if via.as_deref() == Some("filter") {
+        let top = d.verts.iter().copied().max().map_or(0, |x| x + 1);
+        let mut big = d.clone();
+        big.verts.push(top);
+        big.verts.push(top + 3);
+        for (i, &x) in d.verts.iter().enumerate() {
+            if i % 2 == 0 {
+                big.arcs.push((x, top));
+                big.arcs.push((top + 3, x));
+                big.weights.push(1);
+                big.weights.push(1);
             }
         }
+        let keep: BTreeSet<usize> = d.verts.iter().copied().collect();
+        let mut g = big.build_am().filter_vertices(|v| keep.contains(&v));
+        fix_up(&mut g, d);
+        return Some(g);
+    }
+    start_of!(d, via, graaf::AdjacencyMap, build_am)
+}
+
+fn clone_from_case<D: Subject>(mut dst: D, mut src: D, ops_d: &[HOp], ops_s: &[HOp], m: &HOp) -> Option<Vec<V>> {
+    replay(&mut dst, ops_d)?;
+    replay(&mut src, ops_s)?;
+    dst.clone_from(&src);
+    let cmp = match dst.cmp(&src) {
+        std::cmp::Ordering::Less => "less",
+        std::cmp::Ordering::Equal => "equal",
+        std::cmp::Ordering::Greater => "greater",
+    };
+    let mut out = vec![
+        V::L(vec![V::bool(dst == src), V::atom(cmp), V::bool(hash_of(&dst) == hash_of(&src))]),
+        obs(&dst),
+        obs(&src),
+    ];
+    let ret = dst.apply(m)?;
+    out.push(V::L(vec![ret, obs(&src), obs(&dst)]));
+    Some(out)
+}
+
+pub fn eval(op: &str, args: &[V]) -> Option<Vec<V>> {
+    if op != "eq_pair" && op != "eq_clonefrom" {
+        return None;
+    }
+    let [repr, ha, hb, m] = args else { return None };
+    let repr = repr.as_atom()?;
+    let (da, oa, va) = parse_hist(ha)?;
+    let (db, ob, vb) = parse_hist(hb)?;
+    let m = HOp::parse(m)?;
+    if da.repr != repr || db.repr != repr {
+        return None;
+    }
+    macro_rules! run {
+        ($a:expr, $b:expr) => {{
+            let (a, b) = ($a?, $b?);
+            if op == "eq_pair" { compare(a, b, &oa, &ob, &m) } else { clone_from_case(a, b, &oa, &ob, &m) }
+        }};
+    }
+    match repr {
+        "al" => run!(start_of!(&da, va, graaf::AdjacencyList, build_al), start_of!(&db, vb, graaf::AdjacencyList, build_al)),
+        "am" => run!(start_am(&da, &va), start_am(&db, &vb)),
+        "mx" => run!(start_of!(&da, va, graaf::AdjacencyMatrix, build_mx), start_of!(&db, vb, graaf::AdjacencyMatrix, build_mx)),
+        "el" => run!(start_of!(&da, va, graaf::EdgeList, build_el), start_of!(&db, vb, graaf::EdgeList, build_el)),
+        "wu" if va.is_none() && vb.is_none() => run!(Some(da.build_wu()), Some(db.build_wu())),
+        "wi" if va.is_none() && vb.is_none() => run!(Some(da.build_wi()), Some(db.build_wi())),
         _ => None,
     }
 }
@@ -277,8 +432,190 @@ pub fn gen(rng: &mut Rng, thorough: bool, emit: &mut dyn FnMut(String)) {
     }
 }
 
+fn contiguous_desc(repr: &str, n: usize, arcs: Vec<(usize, usize)>) -> Desc {
+    let k = arcs.len();
+    Desc { repr: repr.to_string(), verts: (0..n).collect(), arcs, weights: vec![1; k] }
+}
+
+fn via_ok(via: &str, repr: &str, n: usize) -> bool {
+    match via {
+        "wheel" => n >= 4,
+        "biclique" => n >= 2,
+        "filter" => repr == "am",
+        _ => n >= 1,
+    }
+}
+
+/// What the generator `via` shows in `AdjacencyList` (only used to write a self-contained
+/// description into the input line; nothing is assumed about it).
+fn shown_by(via: &str, n: usize) -> Vec<(usize, usize)> {
+    use graaf::{AdjacencyList as L, Arcs};
+    let g = match via {
+        "complete" => L::complete(n),
+        "circuit" => L::circuit(n),
+        "cycle" => L::cycle(n),
+        "path" => L::path(n),
+        "star" => L::star(n),
+        "wheel" => L::wheel(n),
+        "biclique" => L::biclique((n + 1) / 2, n / 2),
+        "tournament" => L::random_tournament(n, seed_of(n)),
+        "erdos" => L::erdos_renyi(n, 0.5, seed_of(n)),
+        "rrt" => L::random_recursive_tree(n, seed_of(n)),
+        _ => L::empty(n),
+    };
+    g.arcs().collect()
+}
+
+/// One side produced by a generator / a digraph-returning operation / a conversion (then fixed
+/// up to the described digraph), the other side the SAME digraph built by plain calls.
+fn gen_built(rng: &mut Rng, emit: &mut dyn FnMut(String), repr: &str, orders: &[usize], sparse: bool) {
+    let mut kinds: Vec<&str> = vec![];
+    kinds.extend(GENERATORS);
+    kinds.extend(OPERATIONS);
+    kinds.push("filter");
+    for &n in orders {
+        for via in &kinds {
+            if !via_ok(via, repr, n) {
+                continue;
+            }
+            // the described digraph: nothing / what the generator shows / something random
+            // (`sparse`: big orders — keep the described digraph, hence every observation, small)
+            let dense_kind = matches!(*via, "complete" | "tournament" | "erdos" | "biclique");
+            let arcs: Vec<(usize, usize)> = match rng.below(3) {
+                0 => vec![],
+                1 if !(sparse && dense_kind) => {
+                    let mut a = shown_by(via, n);
+                    rng.shuffle(&mut a);
+                    a
+                }
+                _ if sparse => {
+                    let mut a: BTreeSet<(usize, usize)> = BTreeSet::new();
+                    for _ in 0..(1 + rng.below(2 * n)) {
+                        let (u, v) = (rng.below(n), rng.below(n));
+                        if u != v {
+                            let _ = a.insert((u, v));
+                        }
+                    }
+                    let mut a: Vec<(usize, usize)> = a.into_iter().collect();
+                    rng.shuffle(&mut a);
+                    a
+                }
+                _ => graphs::gen_arcs(rng, n).1,
+            };
+            let produced = contiguous_desc(repr, n, arcs.clone());
+            // the other side: the same arcs, half in the description, half by calls, one detour
+            let cut = rng.below(arcs.len() + 1);
+            let direct = contiguous_desc(repr, n, arcs[..cut].to_vec());
+            let mut ops: Vec<HOp> = arcs[cut..].iter().map(|&(u, v)| HOp::Add(u, v)).collect();
+            if n >= 2 && rng.chance(1, 2) {
+                let (u, v) = (rng.below(n), rng.below(n));
+                if u != v && !arcs.contains(&(u, v)) {
+                    ops.push(if repr == "mx" { HOp::Tog(u, v) } else { HOp::Add(u, v) });
+                    ops.push(if repr == "mx" && rng.chance(1, 2) { HOp::Tog(u, v) } else { HOp::Rem(u, v) });
+                }
+            }
+            let m = match rng.below(4) {
+                0 if n >= 2 => HOp::Add(0, n - 1),
+                1 if !arcs.is_empty() => HOp::Rem(arcs[0].0, arcs[0].1),
+                2 => HOp::Add(n - 1, n - 1),
+                _ => HOp::Rem(n, 0),
+            };
+            let (left, right) = (
+                format!("[{} [] {via}]", produced.to_v()),
+                format!("[{} {}]", direct.to_v(), show_ops(&ops)),
+            );
+            if rng.chance(1, 2) {
+                emit(format!("eq_pair {repr} {left} {right} {}", m.to_v()));
+            } else {
+                emit(format!("eq_pair {repr} {right} {left} {}", m.to_v()));
+            }
+        }
+    }
+}
+
+/// `clone_from` between digraphs of different and equal order / block count.
+fn gen_clonefrom(rng: &mut Rng, emit: &mut dyn FnMut(String), repr: &str, pairs: &[(usize, usize)]) {
+    let weighted = repr == "wu" || repr == "wi";
+    for &(nd, ns) in pairs {
+        let mk = |rng: &mut Rng, n: usize| -> Desc {
+            let arcs = if rng.chance(1, 4) {
+                vec![]
+            } else if n > 130 {
+                (0..n - 1).map(|u| (u, u + 1)).collect()
+            } else {
+                graphs::gen_arcs(rng, n).1
+            };
+            let mut d = contiguous_desc(repr, n, arcs);
+            if weighted {
+                d.weights = d.arcs.iter().map(|_| i128::from(rng.range(0, 4))).collect();
+            }
+            d
+        };
+        let dst = mk(rng, nd);
+        let src = mk(rng, ns);
+        let m = if ns >= 2 {
+            let u = rng.below(ns);
+            let v = (u + 1 + rng.below(ns - 1)) % ns;
+            if rng.chance(1, 2) { add_op(repr, u, v, 3) } else { HOp::Rem(u, v) }
+        } else {
+            HOp::Rem(0, 0)
+        };
+        emit(format!("eq_clonefrom {repr} [{} []] [{} []] {}", dst.to_v(), src.to_v(), m.to_v()));
+    }
+}
+
 fn gen_unsorted(rng: &mut Rng, thorough: bool, emit: &mut dyn FnMut(String)) {
-    let per_repr = if thorough { 1700 } else { 100 };
+    if crate::stress() {
+        // big matrices: block-level shortcuts usually switch on above some order (256, 512, …)
+        let orders = [256usize, 257, 264, 300, 511, 513];
+        gen_built(rng, emit, "mx", &orders, true);
+        gen_built(rng, emit, "el", &[257], true);
+        gen_built(rng, emit, "al", &[257], true);
+        let pairs: Vec<(usize, usize)> = vec![(255, 256), (256, 255), (257, 256), (300, 301), (64, 65), (128, 127)];
+        gen_clonefrom(rng, emit, "mx", &pairs);
+        return;
+    }
+    // (0) sides produced by generators / operations / conversions, orders with full and partial last blocks
+    let mx_orders: Vec<usize> = if thorough {
+        (1..=40).chain([48, 63, 64, 65, 72, 96, 127, 128, 129]).collect()
+    } else {
+        (1..=17).chain([23, 24, 25, 32, 33, 40, 64, 65]).collect()
+    };
+    gen_built(rng, emit, "mx", &mx_orders, false);
+    let small: Vec<usize> = if thorough { (1..=24).chain([40, 65]).collect() } else { (1..=9).chain([16, 17]).collect() };
+    for repr in ["al", "el", "am"] {
+        gen_built(rng, emit, repr, &small, false);
+    }
+    // (0b) clone_from: every pair of matrix orders 1..=12 (equal block counts at different orders:
+    // 1..8, 9..11, 12..13), random pairs for the other representations
+    let mut pairs = vec![];
+    let top = if thorough { 17 } else { 12 };
+    for a in 1..=top {
+        for b in 1..=top {
+            pairs.push((a, b));
+        }
+    }
+    // once more the pairs with equal block count but different order, and equal orders
+    for a in 1..=17usize {
+        for b in 1..=17usize {
+            if a != b && (a * a + 63) / 64 == (b * b + 63) / 64 && (a > 8 || rng.chance(1, 2)) {
+                pairs.push((a, b));
+            }
+        }
+        pairs.push((a, a));
+        pairs.push((a, a));
+    }
+    gen_clonefrom(rng, emit, "mx", &pairs);
+    for repr in ["al", "am", "el", "wu", "wi"] {
+        let ps: Vec<(usize, usize)> = (0..(if thorough { 120 } else { 24 }))
+            .map(|i| {
+                let a = 1 + rng.below(12);
+                if i % 3 == 0 { (a, a) } else { (a, 1 + rng.below(12)) }
+            })
+            .collect();
+        gen_clonefrom(rng, emit, repr, &ps);
+    }
+    let per_repr = if thorough { 1700 } else { 70 };
     for _ in 0..per_repr {
         for repr in graphs::ALL_REPRS {
             let (mut a, mut b, target) = gen_converging(rng, repr);
